@@ -5,6 +5,10 @@ import (
 	"math/rand"
 )
 
+// radiansPerDegree converts in one operation, so that the intermediate result
+// cannot overflow for arguments whose converted value is still finite.
+const radiansPerDegree = math.Pi / 180
+
 func OpenMath(L *LState) int {
 	mod := L.RegisterModule(MathLibName, mathFuncs).(*LTable)
 	mod.RawSetString("pi", LNumber(math.Pi))
@@ -86,7 +90,7 @@ func mathCosh(L *LState) int {
 }
 
 func mathDeg(L *LState) int {
-	L.Push(LNumber(float64(L.CheckNumber(1)) * 180 / math.Pi))
+	L.Push(LNumber(float64(L.CheckNumber(1)) / radiansPerDegree))
 	return 1
 }
 
@@ -179,7 +183,7 @@ func mathPow(L *LState) int {
 }
 
 func mathRad(L *LState) int {
-	L.Push(LNumber(float64(L.CheckNumber(1)) * math.Pi / 180))
+	L.Push(LNumber(float64(L.CheckNumber(1)) * radiansPerDegree))
 	return 1
 }
 
